@@ -15,6 +15,8 @@ size_t g_prevheights_size;       /* prevHeights.size() */
 int g_old_h;                     /* prevHeights[g_n] before the call */
 size_t g_missing;                /* witness: an input without an unspent coin */
 int g_thrown;                    /* GetValueOut threw */
+const int64_t* g_anc_mtp;        /* g_anc_mtp[k]: MTP of the ancestor at height max(prevHeights[k]-1, 0), see include/verif_txverify.h */
+const int* g_prevheights_ptr;    /* == prevHeights (for the stub) */
 
 #define SPEC_MAX_MONEY ((int64_t)2100000000000000LL)
 #define SPEC_MAXLEN ((size_t)0x02000000)
@@ -58,19 +60,17 @@ __CPROVER_assigns(g_cur);
 #define TIMETYPE(k) ((SEQ(k) & 0x00400000u) != 0)
 #define PREVHEIGHT_MAX ((int64_t)block->nHeight + 1)
 /* last invalid height / time implied by input k whose coin was confirmed at height h (nLockTime semantics: "- 1") */
-#define HLOCK(h, k) ((int64_t)(h) + (int64_t)(SEQ(k) & 0xffffu) - 1)
+/* (spec arithmetic is done in 128 bits: the verifier also checks spec expressions for overflow) */
+#define HLOCK(h, k) ((__int128)(h) + (__int128)(SEQ(k) & 0xffffu) - 1)
 #ifdef TWIN_GRANULARITY
-#define TLOCK(h, k) (ANC_MTP(block, (h) - 1 > 0 ? (h) - 1 : 0) + ((int64_t)(SEQ(k) & 0xffffu) * 256) - 1)
+#define TLOCK(k) ((__int128)g_anc_mtp[k] + ((__int128)(SEQ(k) & 0xffffu) * 256) - 1)
 #else
-#define TLOCK(h, k) (ANC_MTP(block, (h) - 1 > 0 ? (h) - 1 : 0) + ((int64_t)(SEQ(k) & 0xffffu) * 512) - 1)
+#define TLOCK(k) ((__int128)g_anc_mtp[k] + ((__int128)(SEQ(k) & 0xffffu) * 512) - 1)
 #endif
-/* witness-recording max (std::max in the code) */
-#define VERIF_MAX_H(a, b) ({ int a_ = (a), b_ = (b); if (a_ < b_) g_hwit = g_cur; a_ < b_ ? b_ : a_; })
-#define VERIF_MAX_T(a, b) ({ int64_t a_ = (a), b_ = (b); if (a_ < b_) g_twit = g_cur; a_ < b_ ? b_ : a_; })
 #define GHOST_CALCSEQ_STEP(i) (g_cur = (i))
-#define HMAX_INV(w) (nMinHeight >= -1 && (nMinHeight == -1 || (g_hwit < (w) && !DISABLED(g_hwit) && !TIMETYPE(g_hwit) && (int64_t)nMinHeight == HLOCK(prevHeights[g_hwit], g_hwit))))
-#define TMAX_INV(w) (nMinTime >= -1 && (nMinTime == -1 || (g_twit < (w) && !DISABLED(g_twit) && TIMETYPE(g_twit) && nMinTime == TLOCK(prevHeights[g_twit], g_twit))))
-#define DONE_AT_GN(first, second) (DISABLED(g_n) ? prevHeights[g_n] == 0 : (prevHeights[g_n] == g_old_h && (TIMETYPE(g_n) ? (second) >= TLOCK(g_old_h, g_n) : (int64_t)(first) >= HLOCK(g_old_h, g_n))))
+#define HMAX_INV(w) (nMinHeight >= -1 && (nMinHeight == -1 || (g_hwit < (w) && !DISABLED(g_hwit) && !TIMETYPE(g_hwit) && (__int128)nMinHeight == HLOCK(prevHeights[g_hwit], g_hwit))))
+#define TMAX_INV(w) (nMinTime >= -1 && (nMinTime == -1 || (g_twit < (w) && !DISABLED(g_twit) && TIMETYPE(g_twit) && nMinTime == TLOCK(g_twit))))
+#define DONE_AT_GN(first, second) (DISABLED(g_n) ? prevHeights[g_n] == 0 : (prevHeights[g_n] == g_old_h && (TIMETYPE(g_n) ? (second) >= TLOCK(g_n) : (__int128)(first) >= HLOCK(g_old_h, g_n))))
 #define LOOP_CALCSEQ \
     __CPROVER_assigns(txinIndex, nMinHeight, nMinTime, g_cur, g_hwit, g_twit, __CPROVER_object_whole(prevHeights)) \
     __CPROVER_loop_invariant(txinIndex <= tx->vin_size) \
@@ -78,20 +78,22 @@ __CPROVER_assigns(g_cur);
     __CPROVER_loop_invariant(g_n < tx->vin_size ==> (g_n < txinIndex ? DONE_AT_GN(nMinHeight, nMinTime) : prevHeights[g_n] == g_old_h)) \
     __CPROVER_decreases(tx->vin_size - txinIndex)
 
+#define FRESH_ANC(tx, ph) (__CPROVER_is_fresh(g_anc_mtp, sizeof(int64_t) * ((tx)->vin_size > 0 ? (tx)->vin_size : 1)))
 #define FRESH_BLOCK(b) (__CPROVER_is_fresh(b, sizeof(CBlockIndex)) && (b)->nHeight >= 0 && (b)->nHeight <= INT_MAX - 65536 - 1)
 
 VERIF_REACH_DECL(CalculateSequenceLocks)
 LockPair CalculateSequenceLocks(const CTransaction* tx, int flags, int* prevHeights, const CBlockIndex* block)
-__CPROVER_requires(FRESH_TX(tx) && FRESH_BLOCK(block) && g_prevheights_size == tx->vin_size)
-__CPROVER_requires(tx->vin_size > 0 ==> __CPROVER_is_fresh(prevHeights, sizeof(int) * tx->vin_size))
+__CPROVER_requires(FRESH_TX(tx) && FRESH_BLOCK(block) && g_prevheights_size == tx->vin_size && FRESH_ANC(tx, prevHeights))
+/* (one int is allocated for the empty vector so that the pointer names an object; it is never accessed) */
+__CPROVER_requires(__CPROVER_is_fresh(prevHeights, sizeof(int) * (tx->vin_size > 0 ? tx->vin_size : 1)) && g_prevheights_ptr == prevHeights)
 __CPROVER_requires(g_n < tx->vin_size ==> (g_old_h == prevHeights[g_n] && g_old_h >= 0 && g_old_h <= PREVHEIGHT_MAX))
 /* not enforced (version < 2 or flag off): no constraint, nothing touched */
 __CPROVER_ensures(!ENFORCED ==> (__CPROVER_return_value.first == -1 && __CPROVER_return_value.second == -1 && (g_n < tx->vin_size ==> prevHeights[g_n] == g_old_h)))
 /* enforced: every input with the disable bit clear is dominated by the result; disabled inputs are ignored and their height entry is zeroed */
 __CPROVER_ensures((ENFORCED && g_n < tx->vin_size) ==> DONE_AT_GN(__CPROVER_return_value.first, __CPROVER_return_value.second))
 /* and the result is not larger than needed: it is -1 or attained at an enabled input of the right type */
-__CPROVER_ensures(__CPROVER_return_value.first >= -1 && (__CPROVER_return_value.first == -1 || (ENFORCED && g_hwit < tx->vin_size && !DISABLED(g_hwit) && !TIMETYPE(g_hwit) && (int64_t)__CPROVER_return_value.first == HLOCK(prevHeights[g_hwit], g_hwit))))
-__CPROVER_ensures(__CPROVER_return_value.second >= -1 && (__CPROVER_return_value.second == -1 || (ENFORCED && g_twit < tx->vin_size && !DISABLED(g_twit) && TIMETYPE(g_twit) && __CPROVER_return_value.second == TLOCK(prevHeights[g_twit], g_twit))))
+__CPROVER_ensures(__CPROVER_return_value.first >= -1 && (__CPROVER_return_value.first == -1 || (ENFORCED && g_hwit < tx->vin_size && !DISABLED(g_hwit) && !TIMETYPE(g_hwit) && (__int128)__CPROVER_return_value.first == HLOCK(prevHeights[g_hwit], g_hwit))))
+__CPROVER_ensures(__CPROVER_return_value.second >= -1 && (__CPROVER_return_value.second == -1 || (ENFORCED && g_twit < tx->vin_size && !DISABLED(g_twit) && TIMETYPE(g_twit) && __CPROVER_return_value.second == TLOCK(g_twit))))
 VERIF_REACH_ENSURES(CalculateSequenceLocks, !ENFORCED && tx->vin_size > 0)
 VERIF_REACH_ENSURES(CalculateSequenceLocks, ENFORCED && __CPROVER_return_value.first > 0 && __CPROVER_return_value.second > 0 && tx->vin_size > 2)
 VERIF_REACH_ENSURES(CalculateSequenceLocks, ENFORCED && g_n < tx->vin_size && DISABLED(g_n) && g_old_h > 0)
@@ -111,22 +113,24 @@ __CPROVER_ensures(__CPROVER_return_value == (lockPair.first <= block->nHeight &&
 #else
 __CPROVER_ensures(__CPROVER_return_value == (lockPair.first < block->nHeight && lockPair.second < MTP(block->pprev)))
 #endif
+__CPROVER_ensures(MTP(block->pprev) >= 0 && MTP(block->pprev) <= 0xffffffffLL)
 VERIF_REACH_ENSURES(EvaluateSequenceLocks, __CPROVER_return_value)
 VERIF_REACH_ENSURES(EvaluateSequenceLocks, !__CPROVER_return_value && lockPair.first < block->nHeight)
 __CPROVER_assigns();
 
 /* the statement for one transaction: every enabled relative lock is satisfied in `block` (whose predecessor's MTP is the clock) */
-#define BIP68_OK_AT_GN (DISABLED(g_n) || (TIMETYPE(g_n) ? TLOCK(g_old_h, g_n) < MTP(block->pprev) : HLOCK(g_old_h, g_n) < (int64_t)block->nHeight))
+#define BIP68_OK_AT_GN (DISABLED(g_n) || (TIMETYPE(g_n) ? TLOCK(g_n) < MTP(block->pprev) : HLOCK(g_old_h, g_n) < (__int128)block->nHeight))
 VERIF_REACH_DECL(SequenceLocks)
 bool SequenceLocks(const CTransaction* tx, int flags, int* prevHeights, const CBlockIndex* block)
-__CPROVER_requires(FRESH_TX(tx) && FRESH_BLOCK(block) && __CPROVER_is_fresh(block->pprev, sizeof(CBlockIndex)) && g_prevheights_size == tx->vin_size)
-__CPROVER_requires(tx->vin_size > 0 ==> __CPROVER_is_fresh(prevHeights, sizeof(int) * tx->vin_size))
+__CPROVER_requires(FRESH_TX(tx) && FRESH_BLOCK(block) && __CPROVER_is_fresh(block->pprev, sizeof(CBlockIndex)) && g_prevheights_size == tx->vin_size && FRESH_ANC(tx, prevHeights))
+/* (one int is allocated for the empty vector so that the pointer names an object; it is never accessed) */
+__CPROVER_requires(__CPROVER_is_fresh(prevHeights, sizeof(int) * (tx->vin_size > 0 ? tx->vin_size : 1)) && g_prevheights_ptr == prevHeights)
 __CPROVER_requires(g_n < tx->vin_size ==> (g_old_h == prevHeights[g_n] && g_old_h >= 0 && g_old_h <= PREVHEIGHT_MAX))
 __CPROVER_ensures(!ENFORCED ==> __CPROVER_return_value)
 __CPROVER_ensures((__CPROVER_return_value && ENFORCED && g_n < tx->vin_size) ==> BIP68_OK_AT_GN)
 /* a refusal is justified by a witness input whose lock is not yet satisfied */
-__CPROVER_ensures(!__CPROVER_return_value ==> (ENFORCED && ((g_hwit < tx->vin_size && !DISABLED(g_hwit) && !TIMETYPE(g_hwit) && HLOCK(prevHeights[g_hwit], g_hwit) >= (int64_t)block->nHeight) ||
-                                                            (g_twit < tx->vin_size && !DISABLED(g_twit) && TIMETYPE(g_twit) && TLOCK(prevHeights[g_twit], g_twit) >= MTP(block->pprev)))))
+__CPROVER_ensures(!__CPROVER_return_value ==> (ENFORCED && ((g_hwit < tx->vin_size && !DISABLED(g_hwit) && !TIMETYPE(g_hwit) && HLOCK(prevHeights[g_hwit], g_hwit) >= (__int128)block->nHeight) ||
+                                                            (g_twit < tx->vin_size && !DISABLED(g_twit) && TIMETYPE(g_twit) && TLOCK(g_twit) >= MTP(block->pprev)))))
 VERIF_REACH_ENSURES(SequenceLocks, __CPROVER_return_value && ENFORCED && tx->vin_size > 1)
 VERIF_REACH_ENSURES(SequenceLocks, !__CPROVER_return_value)
 __CPROVER_assigns(g_cur, g_hwit, g_twit, __CPROVER_object_whole(prevHeights));
@@ -182,14 +186,14 @@ VERIF_REACH_ENSURES(CTransaction_GetValueOut, g_thrown && g_cur > 1 && OUT_OK(se
 __CPROVER_assigns(g_cur, g_cnt, g_sum, g_thrown);
 
 /* Consensus::CheckTxInputs */
-#define COIN(k) (inputs->coins[k])
+#define VCOIN(k) (inputs->coins[k])
 #ifdef TWIN_MATURITY_99
-#define MATURE_AT(k) (!COIN(k).fCoinBase || (int64_t)nSpendHeight - (int64_t)COIN(k).nHeight >= 99)
+#define MATURE_AT(k) (!VCOIN(k).fCoinBase || (int64_t)nSpendHeight - (int64_t)VCOIN(k).nHeight >= 99)
 #else
-#define MATURE_AT(k) (!COIN(k).fCoinBase || (int64_t)nSpendHeight - (int64_t)COIN(k).nHeight >= 100)
+#define MATURE_AT(k) (!VCOIN(k).fCoinBase || (int64_t)nSpendHeight - (int64_t)VCOIN(k).nHeight >= 100)
 #endif
-#define INPUT_OK_AT(k) (UNSPENT_AT(inputs, k) && MATURE_AT(k) && MR(COIN(k).out.nValue))
-#define GHOST_TXIN_STEP(i) (g_cur = (i), g_cnt = g_cnt + 1, g_sum = g_sum + (__int128)COIN(i).out.nValue)
+#define INPUT_OK_AT(k) (UNSPENT_AT(inputs, k) && MATURE_AT(k) && MR(VCOIN(k).out.nValue))
+#define GHOST_TXIN_STEP(i) (g_cur = (i), g_cnt = g_cnt + 1, g_sum = g_sum + (__int128)VCOIN(i).out.nValue)
 #define LOOP_TXIN \
     __CPROVER_assigns(i, nValueIn, g_cur, g_cnt, g_sum, state->mode_invalid, state->result, state->reason) \
     __CPROVER_loop_invariant(i <= tx->vin_size && g_cnt == i && STATE_FRESH(state)) \
@@ -211,16 +215,16 @@ __CPROVER_requires(MR(g_value_out))
 __CPROVER_ensures(__CPROVER_return_value ==> (ALL_INPUTS_OK && g_sum >= (__int128)g_value_out && (__int128)*txfee == g_sum - (__int128)g_value_out && MR(*txfee) && STATE_FRESH(state)))
 /* reject => one of the five reasons with the matching result code, the named rule violated at a witness, every earlier rule satisfied, fee untouched */
 __CPROVER_ensures(!__CPROVER_return_value ==> (state->mode_invalid == 1 && *txfee == __CPROVER_old(*txfee)))
-__CPROVER_ensures(REASON(SPEC_R_bad_txns_inputs_missingorspent) ==> (state->result == TX_MISSING_INPUTS && g_missing < tx->vin_size && !UNSPENT_AT(inputs, g_missing)))
+__CPROVER_ensures(REASON(SPEC_R_bad_txns_inputs_missingorspent) ==> (state->result == TX_MISSING_INPUTS && g_cur < tx->vin_size && !UNSPENT_AT(inputs, g_cur)))
 __CPROVER_ensures((!__CPROVER_return_value && state->reason != SPEC_R_bad_txns_inputs_missingorspent) ==> (g_n < tx->vin_size ==> UNSPENT_AT(inputs, g_n)))
 __CPROVER_ensures(REASON(SPEC_R_bad_txns_premature_spend_of_coinbase) ==> (state->result == TX_PREMATURE_SPEND && g_cur < tx->vin_size && !MATURE_AT(g_cur) && (g_n < g_cur ==> INPUT_OK_AT(g_n))))
-__CPROVER_ensures(REASON(SPEC_R_bad_txns_inputvalues_outofrange) ==> (state->result == TX_CONSENSUS && g_cur < tx->vin_size && MATURE_AT(g_cur) && (!MR(COIN(g_cur).out.nValue) || g_sum > SPEC_MAX_MONEY) && (g_n < g_cur ==> INPUT_OK_AT(g_n))))
+__CPROVER_ensures(REASON(SPEC_R_bad_txns_inputvalues_outofrange) ==> (state->result == TX_CONSENSUS && g_cur < tx->vin_size && MATURE_AT(g_cur) && (!MR(VCOIN(g_cur).out.nValue) || g_sum > SPEC_MAX_MONEY) && (g_n < g_cur ==> INPUT_OK_AT(g_n))))
 __CPROVER_ensures(REASON(SPEC_R_bad_txns_in_belowout) ==> (state->result == TX_CONSENSUS && ALL_INPUTS_OK && g_sum < (__int128)g_value_out))
 __CPROVER_ensures(!__CPROVER_return_value ==> (state->reason == SPEC_R_bad_txns_inputs_missingorspent || state->reason == SPEC_R_bad_txns_premature_spend_of_coinbase || state->reason == SPEC_R_bad_txns_inputvalues_outofrange || state->reason == SPEC_R_bad_txns_in_belowout))
 #endif
 VERIF_REACH_ENSURES(CheckTxInputs, __CPROVER_return_value && tx->vin_size > 2 && *txfee > 0)
 VERIF_REACH_ENSURES(CheckTxInputs, REASON(SPEC_R_bad_txns_inputs_missingorspent))
 VERIF_REACH_ENSURES(CheckTxInputs, REASON(SPEC_R_bad_txns_premature_spend_of_coinbase) && g_cur > 0)
-VERIF_REACH_ENSURES(CheckTxInputs, REASON(SPEC_R_bad_txns_inputvalues_outofrange) && g_cur > 1 && MR(COIN(g_cur).out.nValue))
+VERIF_REACH_ENSURES(CheckTxInputs, REASON(SPEC_R_bad_txns_inputvalues_outofrange) && g_cur > 1 && MR(VCOIN(g_cur).out.nValue))
 VERIF_REACH_ENSURES(CheckTxInputs, REASON(SPEC_R_bad_txns_in_belowout))
 __CPROVER_assigns(state->mode_invalid, state->result, state->reason, *txfee, g_cur, g_cnt, g_sum, g_missing);
